@@ -124,7 +124,16 @@ class CollectionAttrMutator(metaclass=ABCMeta):
             and not check_type(new_item, self.attr_spec.item_type)
             and check_type(new_item, self.attr_spec.item_spec_key_type)
         ):
-            new_item = self.attr_spec.item_spec_type(new_item)
+            item_spec_type = self.attr_spec.item_spec_type
+            key = item_spec_type.__spec_class__.key
+            key_spec = item_spec_type.__spec_class__.attrs.get(key)
+            if key_spec is None or key_spec.init:
+                new_item = item_spec_type(new_item)
+            else:
+                # The key is not a constructor argument (`init=False`): build
+                # the element first, then give it its key.
+                key_value, new_item = new_item, item_spec_type()
+                setattr(new_item, key, key_value)
         return new_item
 
     def _mutate_collection(
